@@ -219,8 +219,8 @@ func init() {
 				}
 				ruleLive(c, lv, n)
 			}
-			ro := &RuleResult{Rule: "READONLY", Doc: "the invariant functions do not modify the graph they are given", MinInst: 8}
-			for _, n := range []string{"graph.CliqueNumber", "graph.IndependenceNumber", "graph.AllMaximalCliques", "graph.ChromaticNumber", "graph.IsKColorable", "graph.ChromaticIndex", "graph.GreedyColor", "graph.IsProperColouring", "graph.Degeneracy"} {
+			ro := &RuleResult{Rule: "READONLY", Doc: "the invariant functions do not modify the graph they are given (ChromaticPolynomial deletes and contracts edges of copies only)", MinInst: 9}
+			for _, n := range []string{"graph.CliqueNumber", "graph.IndependenceNumber", "graph.AllMaximalCliques", "graph.ChromaticNumber", "graph.IsKColorable", "graph.ChromaticIndex", "graph.GreedyColor", "graph.IsProperColouring", "graph.Degeneracy", "graph.ChromaticPolynomial"} {
 				noWrites(c, ro, c.Fn(n), []int{0}, "its graph argument")
 			}
 			em := &RuleResult{Rule: "EMIT", Doc: "a clique sent on the result channel is never written again: every write that may reach a sent backing array goes through the current iteration's own allocation and cannot follow a send without a new allocation", MinInst: 1}
